@@ -15,7 +15,7 @@ import ast
 import os
 
 from ..common import Report, REPO, AnalysisError, src
-from ..match import match_expr, match_stmts, strip_doc, canonical, inline_temps
+from ..match import match_expr, match_stmts, strip_doc, canonical, inline_temps, _Subst
 from ..minieval import ev, Undecidable, Unsupported
 
 BASE = 'stdnum'
@@ -356,7 +356,7 @@ def iso_fold(rep, relpath, alphabets, T_expected_one=True, want_trans=False, lab
                       'adjacent transpositions undetected, e.g. state %r symbols %r,%r' % tuple((und or [(0, 0, 0, 0)])[0][1:]),
                       what='%s: all %d x %d x %d adjacent swaps detected' % (lab, len(states), len(symbols), len(symbols) - 1))
         # generator: tabulate gen(s) for every state s by substituting checksum(...) := s
-        genv = {}
+        genv = dict(consts)
         if len(gen.args.args) > 1:
             genv[gen.args.args[1].arg] = alpha if alpha is not None else gdfl.get(gen.args.args[1].arg)
         gnum = gen.args.args[0].arg
@@ -387,6 +387,8 @@ def iso_fold(rep, relpath, alphabets, T_expected_one=True, want_trans=False, lab
                     else:
                         raise Undecidable('statement %s' % type(st).__name__)
             except Undecidable as e:
+                if str(e).startswith('free name'):
+                    raise AnalysisError('%s:%d %s() reads a name the evaluator has no value for: %s' % (relpath, gen.lineno, gen_name, e))
                 rep.fail('ALG.GEN', relpath, gen_name, '%s state=%r' % (lab, s), gen.lineno,
                          'generator is not defined for payload state %r (%s)' % (s, e))
                 continue
@@ -593,10 +595,25 @@ def mod_97_10(rep):
                       'block-wise reduction multiplies by 10 ** %s although the last block %s[i:i + %s] may be shorter: the value differs '
                       'from int(number) %% M for expansions whose length is not a multiple of the block size'
                       % (src(b['E_exp']), b['V_s'].id, b['K_k'].value))
+    conv = None
+    if b is None:
+        # the expansion written in place (possibly through a temporary): int(''.join(...)) % M
+        from ..match import resolve_locals
+        last = strip_doc(ck.body)[-1]
+        others = [st for st in strip_doc(ck.body)[:-1] if not (isinstance(st, ast.Assign) and len(st.targets) == 1 and isinstance(st.targets[0], ast.Name))]
+        b = match_expr('int(E_exp) % K_m', resolve_locals(ck, last.value)) if isinstance(last, ast.Return) and last.value is not None and not others else None
+        if b is not None and isinstance(b['E_exp'], ast.Call) and src(b['E_exp'].func) == "''.join":
+            conv = ast.parse('def _expansion(number):\n    return 0').body[0]
+            conv.body[0].value = b['E_exp']
+            ast.fix_missing_locations(conv)
+            conv.lineno = ck.lineno
+        else:
+            b = None
     if b is None:
         raise AnalysisError('%s:%d checksum() is neither int(<expansion>(number)) %% M nor a block-wise Horner form of it' % (relpath, ck.lineno))
     M = b['K_m'].value
-    conv = need(funcs, b['V_f'].id, relpath)
+    if conv is None:
+        conv = need(funcs, b['V_f'].id, relpath)
     bb = match_stmts("return ''.join(str(int(V_x, K_b)) for V_x in %s)" % conv.args.args[0].arg, strip_doc(conv.body))
     T = validate_wiring(rep, relpath, funcs)
     if bb is not None:
@@ -682,6 +699,116 @@ def mod_97_10(rep):
     return M
 
 
+def luhn_shape(stmts, num):
+    """Symbolic reading of a Luhn style checksum body: a sequence SEQ = (VAL(c) for c in reversed(str(number))) and a result
+    (sum of EVEN(v) over SEQ[::2] + sum of ODD(v) over SEQ[1::2]) % MOD, written with generator sums, explicit accumulation
+    loops, temporaries or tuple unpacking.  -> dict(pre=[assignments of plain values], val=(var, expr), even=[(var, expr)],
+    odd=[(var, expr)], mod=expr) or None when the body is something else."""
+    import copy
+    env = {}
+    pre = []
+
+    def is_rev(e):
+        return src(e) in ('reversed(str(%s))' % num, 'reversed(%s)' % num, 'str(%s)[::-1]' % num, '%s[::-1]' % num)
+
+    def as_seq(e):
+        if isinstance(e, ast.Call) and src(e.func) in ('tuple', 'list') and len(e.args) == 1:
+            e = e.args[0]
+        if isinstance(e, (ast.GeneratorExp, ast.ListComp)) and len(e.generators) == 1 and not e.generators[0].ifs \
+                and isinstance(e.generators[0].target, ast.Name) and is_rev(e.generators[0].iter):
+            return ('seq', e.generators[0].target.id, e.elt)
+        return None
+
+    def parity(e):
+        """SEQ[::2] -> 0, SEQ[1::2] -> 1 for a name bound to the sequence (or the sequence expression itself)"""
+        if isinstance(e, ast.Subscript) and isinstance(e.slice, ast.Slice) and e.slice.upper is None and e.slice.step is not None \
+                and isinstance(e.slice.step, ast.Constant) and e.slice.step.value == 2:
+            base = env.get(e.value.id) if isinstance(e.value, ast.Name) else as_seq(e.value)
+            if base is not None and base[0] == 'seq':
+                lo = e.slice.lower
+                k = 0 if lo is None else (lo.value if isinstance(lo, ast.Constant) else None)
+                if k in (0, 1):
+                    seqs.append(base)
+                    return k
+        return None
+    seqs = []
+
+    def sym(e):
+        if isinstance(e, ast.Name) and isinstance(env.get(e.id), tuple) and env[e.id][0] in ('sum', 'mod'):
+            return env[e.id]
+        if isinstance(e, ast.Call) and src(e.func) == 'sum' and len(e.args) == 1:
+            a = e.args[0]
+            k = parity(a)
+            if k is not None:
+                return ('sum', [('v', ast.Name(id='v', ctx=ast.Load()))], []) if k == 0 else ('sum', [], [('v', ast.Name(id='v', ctx=ast.Load()))])
+            if isinstance(a, (ast.GeneratorExp, ast.ListComp)) and len(a.generators) == 1 and not a.generators[0].ifs and isinstance(a.generators[0].target, ast.Name):
+                k = parity(a.generators[0].iter)
+                if k is not None:
+                    t = (a.generators[0].target.id, a.elt)
+                    return ('sum', [t], []) if k == 0 else ('sum', [], [t])
+            return None
+        if isinstance(e, ast.BinOp) and isinstance(e.op, ast.Add):
+            l, r = sym(e.left), sym(e.right)
+            if l and r and l[0] == r[0] == 'sum':
+                return ('sum', l[1] + r[1], l[2] + r[2])
+            return None
+        if isinstance(e, ast.BinOp) and isinstance(e.op, ast.Mod):
+            l = sym(e.left)
+            if l and l[0] == 'sum':
+                return ('mod', l, e.right)
+        return None
+    for st in stmts:
+        if isinstance(st, ast.Assign) and len(st.targets) == 1 and isinstance(st.targets[0], ast.Name):
+            t = st.targets[0].id
+            sq = as_seq(st.value)
+            if sq is not None:
+                env[t] = sq
+                continue
+            sv = sym(st.value)
+            if sv is not None:
+                env[t] = sv
+                continue
+            if any(isinstance(x, ast.Name) and isinstance(env.get(x.id), tuple) for x in ast.walk(st.value)):
+                return None
+            pre.append(st)
+            continue
+        if isinstance(st, ast.For) and isinstance(st.target, ast.Name) and not st.orelse:
+            k = parity(st.iter)
+            if k is None:
+                return None
+            # temporaries of the loop body are substituted; `q, r = divmod(x, n)` gives q = divmod(x, n)[0], r = divmod(x, n)[1]
+            sub = {}
+            acc = None
+            for b_ in st.body:
+                if isinstance(b_, ast.Assign) and len(b_.targets) == 1 and isinstance(b_.targets[0], ast.Name) and not isinstance(env.get(b_.targets[0].id), tuple):
+                    sub[b_.targets[0].id] = _Subst(dict(sub)).visit(copy.deepcopy(b_.value))
+                elif isinstance(b_, ast.Assign) and len(b_.targets) == 1 and isinstance(b_.targets[0], ast.Tuple) and all(isinstance(x, ast.Name) for x in b_.targets[0].elts):
+                    v_ = _Subst(dict(sub)).visit(copy.deepcopy(b_.value))
+                    for i_, x in enumerate(b_.targets[0].elts):
+                        sub[x.id] = ast.Subscript(value=copy.deepcopy(v_), slice=ast.Constant(value=i_), ctx=ast.Load())
+                elif isinstance(b_, ast.AugAssign) and isinstance(b_.op, ast.Add) and isinstance(b_.target, ast.Name) \
+                        and isinstance(env.get(b_.target.id), tuple) and env[b_.target.id][0] == 'sum' and acc is None:
+                    acc = (b_.target.id, _Subst(dict(sub)).visit(copy.deepcopy(b_.value)))
+                else:
+                    return None
+            if acc is None:
+                return None
+            cur = env[acc[0]]
+            term = (st.target.id, ast.fix_missing_locations(acc[1]))
+            env[acc[0]] = ('sum', cur[1] + [term], cur[2]) if k == 0 else ('sum', cur[1], cur[2] + [term])
+            continue
+        if isinstance(st, ast.Return) and st.value is not None:
+            r = sym(st.value)
+            if r is None or r[0] != 'mod' or not r[1][1] or not r[1][2]:
+                return None
+            seq = seqs[0] if seqs else None
+            if seq is None or any(q is not seq and ast.dump(q[2]) != ast.dump(seq[2]) for q in seqs):
+                return None
+            return {'pre': pre, 'val': (seq[1], seq[2]), 'even': r[1][1], 'odd': r[1][2], 'mod': r[2]}
+        return None
+    return None
+
+
 # ---------------------------------------------------------------------------------- Luhn
 def luhn(rep, ns):
     relpath = 'stdnum/luhn.py'
@@ -691,20 +818,13 @@ def luhn(rep, ns):
     body = strip_doc(ck.body)
     # an optional fast path `if <condition on the alphabet>: <same shape with other expressions>` in front of the general code
     fast = body[0] if body and isinstance(body[0], ast.If) and not body[0].orelse else None
-    pat = ('V_seq = tuple(E_val for V_i in reversed(str(%s)))\n'
-           'return (sum(V_seq[::2]) + sum(E_dbl for V_j in V_seq[1::2])) %% E_mod') % num
-
-    def shape(stmts):
-        pre = []
-        k = 0
-        while k < len(stmts) and isinstance(stmts[k], ast.Assign) and len(stmts[k].targets) == 1 and isinstance(stmts[k].targets[0], ast.Name) \
-                and not (isinstance(stmts[k].value, ast.Call) and src(stmts[k].value.func) == 'tuple'):
-            pre.append(stmts[k])
-            k += 1
-        m_ = match_stmts(pat, stmts[k:])
-        return (pre, m_) if m_ is not None else None
-    general = shape(body[1:] if fast is not None else body)
-    fastshape = shape(fast.body) if fast is not None else None
+    # private one-expression helpers are read as the expressions they return
+    from ..match import inline_expr_helpers
+    ck_in = inline_expr_helpers(ast.Module(body=list(funcs.values()), type_ignores=[]), ck)
+    body = strip_doc(ck_in.body)
+    fast = body[0] if body and isinstance(body[0], ast.If) and not body[0].orelse else None
+    general = luhn_shape(body[1:] if fast is not None else body, num)
+    fastshape = luhn_shape(fast.body, num) if fast is not None else None
     if general is None or (fast is not None and fastshape is None):
         raise AnalysisError('%s:%d checksum() is not the reversed even/odd Luhn sum the rule understands' % (relpath, ck.lineno))
     T = validate_wiring(rep, relpath, funcs)
@@ -745,19 +865,21 @@ def luhn(rep, ns):
                   'the generated character is rejected' % (probe, seen[0][1] if seen else None, alph[0], alph), what='alphabet %r: placeholder %r' % (alph, probe))
         env = dict(consts)
         env[alpha] = alph
-        pre, b = general
+        b = general
         if fast is not None:
             try:
                 if ev(fast.test, env):
-                    pre, b = fastshape
+                    b = fastshape
             except Undecidable as e:
                 raise AnalysisError('%s: the fast path condition %s cannot be evaluated for the alphabet %r: %s' % (relpath, src(fast.test), alph, e))
         try:
-            for st in pre:
+            for st in b['pre']:
                 env[st.targets[0].id] = ev(st.value, env)
-            m = ev(b['E_mod'], env)
-            val = {a: ev(b['E_val'], dict(env, **{b['V_i'].id: a})) for a in alph}
-            D = {v: ev(b['E_dbl'], dict(env, **{b['V_j'].id: v})) for v in sorted(set(val.values()))}
+            m = ev(b['mod'], env)
+            val = {a: ev(b['val'][1], dict(env, **{b['val'][0]: a})) for a in alph}
+            vals_ = sorted(set(val.values()))
+            EV = {v: sum(ev(e_, dict(env, **{x_: v})) for x_, e_ in b['even']) for v in vals_}
+            D = {v: sum(ev(e_, dict(env, **{x_: v})) for x_, e_ in b['odd']) for v in vals_}
         except Undecidable as e:
             raise AnalysisError('%s: the Luhn sum cannot be tabulated for the alphabet %r: %s' % (relpath, alph, e))
         lab = 'luhn mod %d (%s)' % (m, alph[:6])
@@ -765,7 +887,7 @@ def luhn(rep, ns):
         fsm = FSM([(s, p) for s in range(m) for p in (0, 1)], list(alph), period=1)
         for s in range(m):
             for a in alph:
-                fsm.delta[0][((s, 0), a)] = ((s + val[a]) % m, 1)
+                fsm.delta[0][((s, 0), a)] = ((s + EV[val[a]]) % m, 1)
                 fsm.delta[0][((s, 1), a)] = ((s + D[val[a]]) % m, 0)
         und = fsm_checks(rep, relpath, fsm, lab, True)
         pairs = sorted(set(tuple(sorted((a, c))) for (_p, _s, a, c) in und))
@@ -776,8 +898,8 @@ def luhn(rep, ns):
         # generator: the appended character sits at reversed position 0 (plain)
         for s in range(m):
             ch, _seen = run_gen(alph, s)
-            v = val[ch] if isinstance(ch, str) and len(ch) == 1 and ch in val else None
-            others = [w for w in alph if (s + val[w]) % m == T and w != ch]
+            v = EV[val[ch]] if isinstance(ch, str) and len(ch) == 1 and ch in val else None
+            others = [w for w in alph if (s + EV[val[w]]) % m == T and w != ch]
             rep.check(v is not None and (s + v) % m == T and not others, 'ALG.GEN', relpath, 'calc_check_digit', '%s ck=%d' % (lab, s), gen.lineno,
                       'for checksum(payload + alphabet[0]) == %d the generator picks %r, which gives residue %r instead of %r'
                       % (s, ch, None if v is None else (s + v) % m, T), what='%s: residue %d -> %r' % (lab, s, ch))
@@ -795,6 +917,14 @@ def verhoeff(rep):
            '    V_c = V_mt[V_c][V_pt[V_i %% K_p][V_m]]\n'
            'return V_c') % num
     b = match_stmts(pat, strip_doc(ck.body))
+    if b is None:
+        # the same fold with the conversion of each character inside the loop
+        for conv in ('int(V_m)',):
+            for it in ('reversed(str(%s))' % num, 'reversed(%s)' % num, 'str(%s)[::-1]' % num):
+                b = b or match_stmts(('V_c = K_init\n'
+                                      'for V_i, V_m in enumerate(%s):\n'
+                                      '    V_c = V_mt[V_c][V_pt[V_i %% K_p][%s]]\n'
+                                      'return V_c') % (it, conv), strip_doc(ck.body))
     if b is None:
         raise AnalysisError('%s:%d checksum() is not the reversed table fold the rule understands' % (relpath, ck.lineno))
     mt, pt = consts.get(b['V_mt'].id), consts.get(b['V_pt'].id)
@@ -862,7 +992,9 @@ def damm(rep):
     # every (state, digit) pair, whatever its form (a lookup, a guarded lookup, a helper)
     from ..minieval import run as run_stmts
     body = strip_doc(ck.body)
-    b0 = match_stmts('%s = %s or V_T' % (tab, tab), body[:1])
+    b0 = match_stmts('%s = %s or V_T' % (tab, tab), body[:1]) or match_stmts('if not %s:\n    %s = V_T' % (tab, tab), body[:1]) \
+        or match_stmts('if %s is None:\n    %s = V_T' % (tab, tab), body[:1]) or match_stmts('%s = V_T if not %s else %s' % (tab, tab, tab), body[:1]) \
+        or match_stmts('%s = %s if %s else V_T' % (tab, tab, tab), body[:1])
     loop = body[2] if len(body) == 4 and isinstance(body[2], ast.For) else None
     ok_shape = b0 is not None and loop is not None and isinstance(body[1], ast.Assign) and len(body[1].targets) == 1 and isinstance(body[1].targets[0], ast.Name) \
         and isinstance(body[1].value, ast.Constant) and isinstance(loop.target, ast.Name) and src(loop.iter) in ('str(%s)' % num, num) and not loop.orelse \
